@@ -1,10 +1,14 @@
 #!/bin/sh
-# tools/run_seeded.sh <seeded dir> <check id>...  — apply a seeded change to /repo, run the checks, undo it
+# tools/run_seeded.sh <seeded dir> <check id>...  — apply a seeded change to the repository under test, run the checks, undo it.
+# The repository is $VERIF_REPO (default /repo); the checks are the ones of the /verif copy this script lives in, so an isolated
+# regression can run from a clone of /verif against a scratch worktree while /repo itself stays untouched.
 d=$1; shift
-cd /repo && git apply "$d/patch.diff" || exit 2
-cd /verif
+R=${VERIF_REPO:-/repo}
+V=$(cd "$(dirname "$0")/.." && pwd)
+cd "$R" && git apply "$d/patch.diff" || exit 2
+cd "$V"
 for c in "$@"; do
   out=$(bin/check $c quick 2>&1)
   echo "$out" | grep -E "^VIOLATION|^KNOWN|quick:" | cut -c1-220
 done
-git -C /repo checkout -- .
+git -C "$R" checkout -- .
